@@ -574,8 +574,8 @@ def c06(rep, tier, seed, wd, replay):
 
 
 THEOREMS.update({
-    "C01": ("Dirk.Props.C01", ["Dirk.C01_monotone", "Dirk.C01", "Dirk.C01_legacy_counterexample"]),
-    "C02": ("Dirk.Props.C02", ["Dirk.C02_increasing", "Dirk.C02", "Dirk.C02_legacy_counterexample"]),
+    "C01": ("Dirk.Props.C01", ["Dirk.C01_monotone", "Dirk.C01", "Dirk.C01_legacy_counterexample", "Dirk.C01_kernel_is_source"]),
+    "C02": ("Dirk.Props.C02", ["Dirk.C02_increasing", "Dirk.C02", "Dirk.C02_legacy_counterexample", "Dirk.C02_kernel_is_source"]),
 })
 
 def run_perm_configs(rep, dh, wd, configs, label="perms"):
@@ -1260,7 +1260,7 @@ def c11(rep, tier, seed, wd, replay):
     rep.cov["roundtrip_scenarios"] = len(scen)
 
 
-def run_conc(rep, dh, wd, keys, rng, n_steered, n_soak, soak_size, gomaxprocs, want_lin=True, want_slash=True, n_cross=0, cross_kind=None):
+def run_conc(rep, dh, wd, keys, rng, n_steered, n_soak, soak_size, gomaxprocs, want_lin=True, want_slash=True, n_cross=0, cross_kind=None, n_deadline=0):
     """steered schedules + soak; returns (found_violation, stats)"""
     import conc
     from common import run_impl, run_model
@@ -1278,6 +1278,9 @@ def run_conc(rep, dh, wd, keys, rng, n_steered, n_soak, soak_size, gomaxprocs, w
         for _ in range(n_cross):
             pre, cops = conc.cross_soak(rng.fork(), accts, soak_size, cross_kind)
             scen.append(("cross-soak", pre, "-", cops, 32))
+        for _ in range(n_deadline):
+            parks, cops = conc.deadline_soak(rng.fork(), accts, 40)
+            scen.append(("deadline-soak", [], parks, cops, 0))
         lines = []
         for kind, prefix, parks, cops, workers in scen:
             lines += ["reset"] + cfg + conc.scenario_lines(prefix, parks, cops, workers)
@@ -1308,7 +1311,7 @@ def run_conc(rep, dh, wd, keys, rng, n_steered, n_soak, soak_size, gomaxprocs, w
             ops_seq = prefix + [op for _, op in cops]
             impl_seq = out[1:1 + len(prefix)] + [r_[2] for r_ in res]
             slash_h.append({"cfg": cfg, "ops": ops_seq, "impl": impl_seq, "accts": accts, "scen": (kind, prefix, parks, cops, workers)})
-            if want_lin and kind not in ("soak", "cross-soak"):
+            if want_lin and kind not in ("soak", "cross-soak", "deadline-soak"):
                 jl += ["reset"] + cfg + prefix + ["lin-begin"]
                 for (d, op), (ti, tr, rs) in zip(cops, res):
                     jl.append("lin-op %d %d %s %s" % (ti, tr, rs.replace(" ", "+"), op))
@@ -1406,7 +1409,8 @@ def c15(rep, tier, seed, wd, replay):
     prove(rep, "C15")
     first_bad, dh, keys, rng = lock_trace_histories(rep, tier, seed, wd, "C15")
     ns, nsoak, ssize = tier_sizes(tier, (40, 3, 200), (600, 12, 600))
-    found = run_conc(rep, dh, wd, keys, rng, ns, nsoak, ssize, [2, None] if tier != "thorough" else [2, 16, 128], want_lin=False, want_slash=False)
+    found = run_conc(rep, dh, wd, keys, rng, ns, nsoak, ssize, [2, None] if tier != "thorough" else [2, 16, 128], want_lin=False, want_slash=False,
+                     n_deadline=3 if tier != "thorough" else 30)
     if first_bad is not None:
         h, (i, op, il, ml) = first_bad
         rep.broken.append(("correspondence:lock-trace(model lock protocol vs ruler+locker calls)",
@@ -2100,6 +2104,33 @@ def c16(rep, tier, seed, wd, replay):
                        "the matrix is enumerated completely")
     prove(rep, "C16")
     dh = build_harness(wd)
+    # over real TLS: the five key-generation methods of a real daemon under every credential kind; a caller whose VERIFIED
+    # (leaf) certificate name is not a configured peer must be answered "unknown sender" (or refused at the transport)
+    if REPLAY is None:
+        from common import sh, REPO
+        d = os.path.join(wd, "tls")
+        os.makedirs(d, exist_ok=True)
+        rc, out, err = sh([dh, "tls", d, REPO], timeout=600)
+        if rc != 0:
+            raise Broken("tls-engine", err[-2000:])
+        ntls = 0
+        for l in out.splitlines():
+            f = l.split()
+            if len(f) != 4 or "/v1.DKG/" not in f[1]:
+                continue
+            kind, meth, wallet, res = f
+            ntls += 1
+            rep.count("tls|" + l, True)
+            leaf = kind.split(":", 1)[1].split("+")[0] if ":" in kind else ""
+            verified = kind.split(":")[0] in ("valid", "chain")
+            is_peer = verified and leaf in DAEMON_PEERS
+            honoured = res.startswith("served") and "unknown_sender" not in res.lower().replace(" ", "_")
+            rep.dist("tls_dkg", ("peer" if is_peer else "non-peer") + ":" + ("honoured" if honoured else "refused"))
+            if honoured and not is_peer:
+                rep.violation("non-peer-honoured-over-tls", "a key-generation message from a caller whose verified certificate name is not a configured peer was acted on",
+                              {"credential": kind, "method": meth, "result": res})
+                break
+        rep.cov["tls_dkg_calls_judged"] = ntls
     scen = dkg.c16_scenarios(tier)
     res = run_dkg(rep, dh, wd, scen, "dkg-auth")
     found = False
@@ -2251,7 +2282,7 @@ THEOREMS.update({
                                "Dirk.C07_fixed_alternation", "Dirk.C07_whole_name", "Dirk.C07_entry_matches_spec",
                                "Dirk.Re.search_anchored", "Dirk.Re.matchFrom_iff"]),
     "C05": ("Dirk.Props.C05", ["Dirk.C05_generic_single", "Dirk.C05_generic_multi", "Dirk.C05_attest_only_attester",
-                               "Dirk.C05_propose_only_proposer", "Dirk.C05_logs"]),
+                               "Dirk.C05_propose_only_proposer", "Dirk.C05_logs", "Dirk.C05_kernel_is_source"]),
     "C06": ("Dirk.Props.C06", ["Dirk.C06_att", "Dirk.C06_prop", "Dirk.C06_sign", "Dirk.C06_atts", "Dirk.C06_msign",
                                "Dirk.C06_att_fault", "Dirk.C06_prop_fault", "Dirk.C06_batch_store_fault",
                                "Dirk.C06_batch_fetch_fault", "Dirk.C06_shape_atts", "Dirk.C06_shape_msign"]),
